@@ -657,6 +657,11 @@ func (e *Exec) rangeIter(fr *frame, x Value, t types.Type) Value {
 		if xv != nil {
 			e.raceMapRead(fr, xv)
 			it.snap = append([]mapEntry(nil), xv.entries...)
+			if n := len(it.snap); e.mapRotate > 0 && n > 1 {
+				// Go iterates a small map from a random slot and wraps around: a rotation of the slot order
+				k := e.mapRotate % n
+				it.snap = append(append([]mapEntry(nil), it.snap[k:]...), it.snap[:k]...)
+			}
 		}
 		return it
 	case string:
